@@ -130,7 +130,6 @@ Definition wf_packet (pk : packet) : bool :=
   && (if ty =? 3 then true
       else negb (fh_dup fh) && negb (fh_retain fh)
            && (fh_qos fh =? (if (ty =? 6) || (ty =? 8) || (ty =? 10) then 1 else 0)))
-  && (if (ty =? 12) || (ty =? 13) then fh_remaining fh =? 0 else true)
   (* CONNECT: protocol name and level as the standard defines them, no will fields without a will *)
   && (if ty =? 1
       then ((v =? 3) || (v =? 4) || (v =? 5))
@@ -140,6 +139,13 @@ Definition wf_packet (pk : packet) : bool :=
       else true)
   (* subscription options within their bit fields *)
   && forallb (fun s => (s_qos s <=? 2) && (s_retain_handling s <? 4)) (pk_filters pk).
+
+(* known finding KF_C26_pid0: a packet the decoder accepts and the encoder refuses: packet identifier 0
+   where one is required *)
+Definition KF_C26_pid0 (pk : packet) : bool :=
+  (pk_packet_id pk =? 0)
+  && (((fh_type (pk_fh pk) =? 3) && (0 <? fh_qos (pk_fh pk)))
+      || (fh_type (pk_fh pk) =? 8) || (fh_type (pk_fh pk) =? 10)).
 
 (* what decoding the encoder's output returns: the packet the encoded bytes mean *)
 Definition norm (pk : packet) (rem : N) : packet := expected (pk_version pk) (abs pk) rem.
